@@ -15,6 +15,22 @@ NA = {
 PENDING = "check under construction in this session (see DESIGN.md 10 build order)"
 
 CHECKS = {
+    "C03": dict(
+        category="other",
+        text="Abstract interpretation of every sampler (33 families x f32/f64) on representatives of every constructor Ok outcome with finite "
+             "arguments: one generic run (draws range over the interior of their distribution) and one tagged run per draw site and special point "
+             "(closed end-point, exact 0 or 1/2, extreme word) — exactly the property's 'one adversarial word' quantifier, which no seeded test reaches "
+             "(2^-53 events). Three stated clauses: (a) no tagged draw adds NaN/inf to the result; (b) NaN-freedom/finiteness/lower bound of the generic "
+             "result where it follows from signs and guards (recorded as a reference list of proved obligations); (c) every panic edge in sampling code "
+             "is discharged or listed. Found: Exp1 tail +inf (fixed), Gumbel/Frechet/StudentT(1)/FisherF(.,1) infinities (known findings).",
+        design_ref="DESIGN.md 5/C03, 4 (envelope), 9 (findings)",
+        note="Envelope semantics: finite op finite is finite, so rounding escapes (Zipf n+1, Triangular/Pert <= max within ulps, HIN tail) and "
+             "overflow for extreme parameters are out of scope; upper bounds needing relational reasoning (Beta <= 1, Binomial <= n, Hypergeometric range) "
+             "and the weighted indices are NOT decided; obligations never proved are reported (unproved), not alarmed. A recorded obligation that stops being "
+             "provable is an alarm, which can also be caused by a behaviour-preserving rewrite the domains cannot follow (stated in DESIGN.md 8).",
+        technique="abstract interpretation of rustc MIR with tagged end-point draws (interval domain with NaN/inf/signed zeros), reference list of discharged obligations",
+        engine="rdx+E2",
+    ),
     "C04": dict(
         category="other",
         text="Abstract interpretation of every public scalar constructor (and Dirichlet::new) on an exhaustive partition of its argument space: "
